@@ -321,6 +321,11 @@ func (x *Exec) atLoopHead(st *State, b, prev *ssa.BasicBlock, ord int, k Cont) {
 		if key == "*" {
 			continue
 		}
+		if strings.HasPrefix(key, "G|$visited") {
+			st.ghost[key[2:]] = leaf(nil, x.fresh(st, "visited", "(Array Int Bool)"))
+			st.written[key] = true
+			continue
+		}
 		if strings.HasPrefix(key, "G|") {
 			g := x.eng.cs.Ghosts[key[2:]]
 			if g != nil {
@@ -1445,6 +1450,7 @@ func (x *Exec) mapInit(st *State, mt *types.Map, ref string) {
 	dk, _ := mapKeys(mt)
 	d := x.heapArr(st, dk, "Bool")
 	x.setHeapArr(st, dk, "Bool", fmt.Sprintf("(store %s %s ((as const (Array Int Bool)) false))", d, ref))
+	st.assume(fmt.Sprintf("(= (maplen (select %s %s) %s) 0)", st.heap[dk], ref, ref))
 }
 
 func (x *Exec) lookup(st *State, in *ssa.Lookup) *Value {
@@ -1457,6 +1463,9 @@ func (x *Exec) lookup(st *State, in *ssa.Lookup) *Value {
 		present := fmt.Sprintf("(select (select %s %s) %s)", d, m.Term, kt)
 		vt := mt.Elem()
 		val := mkValue(vt, func(l Leaf) string {
+			if refLeaf(l) {
+				x.refArrays[vk+"|"+l.Path] = true
+			}
 			a := x.heapArr(st, vk+"|"+l.Path, l.Sort)
 			z := "0"
 			if l.Sort == "Bool" {
@@ -1490,6 +1499,9 @@ func (x *Exec) mapUpdate(st *State, m, k, v *Value) {
 	dk, vk := mapKeys(mt)
 	d := x.heapArr(st, dk, "Bool")
 	x.setHeapArr(st, dk, "Bool", fmt.Sprintf("(store %s %s (store (select %s %s) %s true))", d, m.Term, d, m.Term, kt))
+	// cardinality: len(m) grows by one exactly when the key is new
+	st.assume(fmt.Sprintf("(= (maplen (select %s %s) %s) (+ (maplen (select %s %s) %s) (ite (select (select %s %s) %s) 0 1)))", st.heap[dk], m.Term, m.Term, d, m.Term, m.Term, d, m.Term, kt))
+	st.assume(fmt.Sprintf("(>= (maplen (select %s %s) %s) 0)", d, m.Term, m.Term))
 	terms := x.flatten(v)
 	ls := leaves(mt.Elem())
 	if len(terms) != len(ls) {
@@ -1512,6 +1524,9 @@ func (x *Exec) mapDelete(st *State, m, k *Value) {
 	dk, _ := mapKeys(mt)
 	d := x.heapArr(st, dk, "Bool")
 	x.setHeapArr(st, dk, "Bool", fmt.Sprintf("(store %s %s (store (select %s %s) %s false))", d, m.Term, d, m.Term, kt))
+	st.assume(fmt.Sprintf("(= (maplen (select %s %s) %s) (- (maplen (select %s %s) %s) (ite (select (select %s %s) %s) 1 0)))", st.heap[dk], m.Term, m.Term, d, m.Term, m.Term, d, m.Term, kt))
+	st.assume(fmt.Sprintf("(=> (select (select %s %s) %s) (>= (maplen (select %s %s) %s) 1))", d, m.Term, kt, d, m.Term, m.Term))
+	st.assume(fmt.Sprintf("(>= (maplen (select %s %s) %s) 0)", d, m.Term, m.Term))
 }
 
 func (x *Exec) rangeInit(st *State, in *ssa.Range) *Value {
@@ -1529,9 +1544,10 @@ func (x *Exec) rangeInit(st *State, in *ssa.Range) *Value {
 		it.m = m
 	}
 	st.iters[id] = it
-	// expose the visited set as pseudo-ghost for invariants: $visited
-	st.ghost["$visited"] = leaf(nil, it.visited)
-	st.ghost["$iter"] = leaf(nil, id)
+	// expose the visited set as pseudo-ghost for invariants: $visited<n>, n = ordinal of the range statement
+	n := x.rangeOrdinal(in)
+	st.ghost[fmt.Sprintf("$visited%d", n)] = leaf(nil, it.visited)
+	st.ghost[fmt.Sprintf("$iter%d", n)] = leaf(nil, id)
 	return leaf(in.Type(), id)
 }
 
@@ -1548,7 +1564,12 @@ func (x *Exec) rangeNext(st *State, in *ssa.Next) *Value {
 	d := x.heapArr(st, dk, "Bool")
 	// the visited set may have been havocked by a loop cut: use the current ghost
 	vis := it.visited
-	if g, okg := st.ghost["$visited"]; okg && st.ghost["$iter"] != nil && st.ghost["$iter"].Term == itv.Term {
+	rn := 0
+	if rin, isR := in.Iter.(*ssa.Range); isR {
+		rn = x.rangeOrdinal(rin)
+	}
+	vname := fmt.Sprintf("$visited%d", rn)
+	if g, okg := st.ghost[vname]; okg {
 		vis = g.Term
 	}
 	kv := x.freshValue(st, mt.Key(), "rk")
@@ -1561,8 +1582,8 @@ func (x *Exec) rangeNext(st *State, in *ssa.Next) *Value {
 	nit := *it
 	nit.visited = nv
 	st.iters[itv.Term] = &nit
-	st.ghost["$visited"] = leaf(nil, nv)
-	st.written["G|$visited"] = true
+	st.ghost[vname] = leaf(nil, nv)
+	st.written["G|"+vname] = true
 	val := mkValue(mt.Elem(), func(l Leaf) string {
 		a := x.heapArr(st, vk+"|"+l.Path, l.Sort)
 		return fmt.Sprintf("(select (select %s %s) %s)", a, it.m.Term, kt)
@@ -1576,4 +1597,22 @@ func (x *Exec) rangeNext(st *State, in *ssa.Next) *Value {
 		vOut = x.zeroValue(st, tt.At(2).Type())
 	}
 	return &Value{K: KTuple, T: in.Type(), Fs: []*Value{leaf(types.Typ[types.Bool], ok), kOut, vOut}}
+}
+
+// rangeOrdinal: 1-based ordinal of a range-over-map statement in its function (source order).
+func (x *Exec) rangeOrdinal(in *ssa.Range) int {
+	n := 0
+	for _, b := range in.Parent().Blocks {
+		for _, ins := range b.Instrs {
+			if r, ok := ins.(*ssa.Range); ok {
+				if _, isMap := r.X.Type().Underlying().(*types.Map); isMap {
+					n++
+				}
+				if r == in {
+					return n
+				}
+			}
+		}
+	}
+	return n
 }
